@@ -1,0 +1,67 @@
+//go:build verif
+
+package loader
+
+import (
+	"context"
+
+	interp "github.com/compose-spec/compose-go/v2/interpolation"
+	"github.com/compose-spec/compose-go/v2/tree"
+	"github.com/compose-spec/compose-go/v2/types"
+)
+
+// Thin exported wrappers of unexported loader functions, so that a verification harness can
+// drive single stages.  Compiled only with the `verif` build tag.
+
+func VerifCheckConsistency(p *types.Project) error { return checkConsistency(p) }
+
+func VerifProjectName(details *types.ConfigDetails, opts *Options) error {
+	return projectName(details, opts)
+}
+
+func VerifCastTable() map[tree.Path]interp.Cast { return interpolateTypeCastMapping }
+
+func VerifModelToProject(dict map[string]any, opts *Options, details types.ConfigDetails) (*types.Project, error) {
+	return modelToProject(dict, opts, details)
+}
+
+func VerifLoadModel(ctx context.Context, details *types.ConfigDetails, opts *Options) (map[string]any, error) {
+	return loadModelWithContext(ctx, details, opts)
+}
+
+func VerifToOptions(details *types.ConfigDetails, options []func(*Options)) *Options {
+	return toOptions(details, options)
+}
+
+func VerifFixEmptyNotNull(v any) any { return fixEmptyNotNull(v) }
+
+func VerifOmitEmpty(v any) any { return omitEmpty(v, tree.NewPath()) }
+
+func VerifDeepClone(v any) any { return deepClone(v) }
+
+func VerifNormalizeNetworks(dict map[string]any) { normalizeNetworks(dict) }
+
+func VerifSetNameFromKey(dict map[string]any) { setNameFromKey(dict) }
+
+func VerifResolveServicesEnvironment(dict map[string]any, env types.Mapping) {
+	resolveServicesEnvironment(dict, env)
+}
+
+func VerifResolveSecretsEnvironment(dict map[string]any, env types.Mapping) {
+	resolveSecretsEnvironment(dict, env)
+}
+
+func VerifResolveConfigsEnvironment(dict map[string]any, env types.Mapping) {
+	resolveConfigsEnvironment(dict, env)
+}
+
+func VerifImportResources(source, target map[string]any) error { return importResources(source, target) }
+
+func VerifLoadIncludeConfig(source any) ([]types.IncludeConfig, error) { return loadIncludeConfig(source) }
+
+func VerifProcessExtensions(dict map[string]any, extensions map[string]any) (map[string]any, error) {
+	return processExtensions(dict, tree.NewPath(), extensions)
+}
+
+// VerifVersionWarningLen observes the package-level versionWarning slice.
+func VerifVersionWarningLen() int { return len(versionWarning) }
